@@ -262,6 +262,28 @@ class HedSchemaTagSection(HedSchemaSection):
 
         return list(result.values())
 
+    @staticmethod
+    def _parents_first(entries):
+        """ Reorder tag entries so that the children of a node directly follow it, keeping their relative order. """
+        known = {entry.name.casefold() for entry in entries}
+        children = {}
+        roots = []
+        for entry in entries:
+            parent_name = entry.name.rpartition("/")[0].casefold()
+            if parent_name and parent_name in known:
+                children.setdefault(parent_name, []).append(entry)
+            else:
+                roots.append(entry)
+        ordered = []
+
+        def add(entry):
+            ordered.append(entry)
+            for child in children.pop(entry.name.casefold(), []):
+                add(child)
+        for entry in roots:
+            add(entry)
+        return ordered
+
     def _finalize_section(self, hed_schema):
         # Find the attributes with the inherited property
         attribute_section = hed_schema.attributes
@@ -283,6 +305,10 @@ class HedSchemaTagSection(HedSchemaSection):
             if node.has_attribute(HedKey.ExtensionAllowed):
                 # Make sure we sort / characters to the front.
                 values.sort(key=lambda x: x.long_tag_name.replace("/", "\0"))
+            else:
+                # Nodes of a library that are rooted in this tree were appended behind it: move every node
+                # behind its parent (the MediaWiki format relies on the order of the lines).
+                values[:] = self._parents_first(values)
 
         # Sort ones without inLibrary to the end, and then sort library ones at the top.
         split_list.sort(key=lambda x: (x[0].has_attribute(HedKey.InLibrary, return_value=True) is None,
